@@ -88,6 +88,10 @@ type Program struct {
 	FinalWait bool `json:"final_wait"`
 	// GFX9 compiles with the gfx9/CDNA3 encodings (for the CDNA3 emulator)
 	GFX9 bool `json:"gfx9,omitempty"`
+	// PadVGPR / PadSGPR enlarge the register counts declared in the code object beyond
+	// what the code uses (as compilers do), independently of each other
+	PadVGPR int `json:"pad_vgpr,omitempty"`
+	PadSGPR int `json:"pad_sgpr,omitempty"`
 }
 
 // producesValue reports whether an op kind appends a value.
